@@ -820,9 +820,10 @@ class Worker:
         sig, nt = self._presig("FIT")
         sig["fam"], sig["profile"] = fam, profile
         out["presig"], out["nontrivial"] = sig, nt or ds.n_uses > 1
+        prev_gate = old.gate0 if (reuse and old is not None and old.fitted and old.obj is model) else None
         if ab and fam != "caltrack":
             res = self._fit_aborted(a, ds, model, kw, ab, before, out)
-            self._limbo(a["m"], model, fam, profile)
+            self._limbo(a["m"], model, fam, profile, prev_gate)
             return res
         try:
             self._call(lambda: model.fit(ds.obj, *pargs, **kw))
@@ -846,9 +847,9 @@ class Worker:
                     out["still_fitted"] = bool(getattr(model, "is_fitted", True))
                 else:
                     self._drop_model(a["m"])
-                    self._limbo(a["m"], model, fam, profile)
+                    self._limbo(a["m"], model, fam, profile, prev_gate)
             else:
-                self._limbo(a["m"], model, fam, profile)
+                self._limbo(a["m"], model, fam, profile, prev_gate)
             return out
         if keep_old:
             self._drop_model(a["m"])
@@ -902,11 +903,12 @@ class Worker:
         self._enter_service(slot)
         return out
 
-    def _limbo(self, ms, model, fam, profile):
+    def _limbo(self, ms, model, fam, profile, prev_gate=None):
         """The object of a fit() that was interrupted or failed stays in its slot, good for one thing only: being
         handed to fit() again (what a batch job that catches the exception and moves on to the next meter does)."""
         slot = ModelSlot(model, fam, profile)
         slot.limbo = True
+        slot.gate0 = prev_gate     # what the gate knew about the object before the fit that did not complete
         self.models[ms] = slot
         self.probe("object_kept_after_failed_fit")
 
@@ -987,8 +989,20 @@ class Worker:
     def op_PREDICT(self, a, store):
         slot = self.models.get(a["m"])
         ds = self.data.get(a["d"])
-        if slot is None or ds is None or slot.limbo:
+        if slot is None or ds is None:
             return {"class": "skipped"}
+        if slot.limbo:
+            # an object whose re-fit did not complete.  Nothing is promised about what it predicts, except the gate's
+            # fail-closed side: if it was a disqualified model before, it must not predict without the override
+            if slot.gate0 is None or not slot.gate0.get("dq") or bool(a.get("ignore")) or slot.fam == "caltrack":
+                return {"class": "skipped"}
+            try:
+                self._call(lambda: self._do_predict(slot.obj, slot.fam, ds.obj, False, a.get("agg")))
+                cls_ = "returned"
+            except Exception as e:  # noqa: BLE001
+                cls_ = _cls(e)
+            self.probe("predict_after_interrupted_refit")
+            return {"class": cls_, "limbo_probe": {"fam": slot.fam, "profile": slot.profile, "prev_dq": slot.gate0["dq"]}}
         ignore = bool(a.get("ignore"))
         agg = a.get("agg")
         facts = self._predict_facts(slot, ds)
